@@ -42,6 +42,8 @@ CLAIMS.update({
             "2-16 connections in shared sessions with all modules and the production decorators; concurrent blocks of 2-3 requests (serializability search) and one block of 5-16 simultaneous requests (liveness) per run, under random-walk/PCT schedules with injected task stalls.", "§7 C09"),
     "C10": ("history invariants over every id the server hands out (fresh session id among live sessions, participant/entity ids never reissued per session UUID, type ids <-> names bijective, asset ids unique) and a generator micro-world (no id outstanding twice)",
             "Long create/end cycles, joins, entity/type/asset allocations, concurrent allocation blocks; in a quarter of the runs 1-8 tasks call New/Reuse on one SequentialIDGenerator under the simulated scheduler. Sequences are sampled, not enumerated.", "§7 C10"),
+    "C20": ("invariants over the exported fields of the session's RegularGrid after every delivered sample (every stored plane registered in every cell its footprint overlaps, bounds contain every footprint, PlaneCount = distinct stored planes, covering region query returns each exactly once, vertical ray through a centre hits), stored planes never decrease across joins/leaves, what a second member is told over the protocol equals what is stored; the geometric-primitive clause is evaluated on seeded vectors against a math/big reference as a labelled, non-simulated side oracle",
+            "Quad samples (finite, |coord| <= 64 m, positive extents; appends, merges, cascade merges, growth in all four directions) sent by 1-3 members interleaved with joins and leaves; region and ray queries from another member.", "§7 C20, §8"),
 })
 
 NA = {
